@@ -23,6 +23,14 @@ static inline int __ipr_throw(int id)
   return 0;
 }
 
+/* ---- the C library's byte functions, as the lowered code names them when the source calls them (clang's C++ names of the
+   <cstring> declarations); given by cbmc's own models.  Unused unless a changed source starts calling them. */
+int _Z6memcmp(void* a, void* b, unsigned long n) { return memcmp(a, b, n); }
+void* _Z6memcpy(void* d, void* s, unsigned long n) { return memcpy(d, s, n); }
+void* _Z7memmove(void* d, void* s, unsigned long n) { return memmove(d, s, n); }
+void* _Z6memset(void* d, int c, unsigned long n) { return memset(d, c, n); }
+unsigned long _Z6strlen(void* s) { return strlen((const char*)s); }
+
 /* ---- allocation (assumed: never fails, fresh object of the requested size) */
 #ifdef IPR_ALLOC_IS_MALLOC      /* leak checks (C19) need cbmc's malloc bookkeeping */
 static inline void* __ipr_alloc(unsigned long n) { void* p = malloc(n); __CPROVER_assume(p != 0); return p; }
